@@ -102,6 +102,9 @@ func servers(t tb, kind string) []*server {
 	return out
 }
 
+// bigOnPublicOutput: secret-handling operations that encode a public result with math/big.
+var bigOnPublicOutput = map[string]bool{"sign": true}
+
 func validObs(kind, cov string) bool {
 	if kind == "cover" {
 		return len(cov) == 32 && !strings.HasPrefix(cov, "raw") && !strings.HasPrefix(cov, "coverr")
@@ -201,6 +204,14 @@ func secretIndependence(t *rapid.T, kind, sub string) {
 			if rep.Cov != first.Cov {
 				t.Fatalf("[%s/%s] %s: executed path depends on the secret (public inputs identical)\n  A: %s\n  B: %s\n  observation A=%s B=%s\n%s",
 					kind, s.build, op, firstLine, line, first.Cov, rep.Cov, explain(s, firstLine, line))
+			}
+			// the cover build also instruments math/big: the library's own blocks can be secret-independent while
+			// a documented variable-time routine of the standard library runs on the secret.  Operations whose
+			// result is a public value encoded with math/big (the ASN.1 signature) are exempt: there the path
+			// through math/big legitimately follows the (secret-dependent, but published) r and s.
+			if kind == "cover" && !bigOnPublicOutput[op] && rep.CovExt != first.CovExt {
+				t.Fatalf("[%s/%s] %s: the path executed inside math/big depends on the secret (public inputs identical)\n  A: %s\n  B: %s\n  math/big observation A=%s B=%s\n%s",
+					kind, s.build, op, firstLine, line, first.CovExt, rep.CovExt, explain(s, firstLine, line))
 			}
 		}
 	}
